@@ -615,3 +615,140 @@ func TestC08K5_FileHeuristic(t *testing.T) {
 	probe(t, c08Case{Tests: map[string][]Step{"TestGamma": {call("snap", "default")}, "TestBeta": {call("snap", "default")}},
 		Run: "Gamma", Upd: "clean"})
 }
+
+// ---- -count=N where a test only skips in a LATER execution ------------------------------------------------------------
+//
+// Every test of the program runs N times. A resource that is gone after the first run (a port, a schema that can be
+// migrated once per process) makes a test call snaps.Skip* only from its k-th execution on. It is a skipped test all
+// the same: whatever it recorded earlier stays. All tests store into one shared multi-entry file which the first test
+// always addresses (no sole-owner situation, K2), no -run filter (K3-K5).
+
+type c08LaterCase struct {
+	Count    int    `json:"count"`
+	NAlpha   int    `json:"calls_of_TestAlpha"`
+	NBeta    int    `json:"calls_of_TestBeta"`
+	BetaSub  bool   `json:"TestBeta_has_a_sub_test_after_its_calls"`
+	SkipAt   int    `json:"TestBeta_skips_before_step"`
+	FromExec int    `json:"from_execution"`
+	Kind     string `json:"kind"`
+	// AlwaysSkipper: another test (TestAl, sorts before TestAlpha) that calls snaps.Skip in EVERY execution, before its calls
+	AlwaysSkipper bool   `json:"another_test_skips_in_every_execution"`
+	GammaFrom     int    `json:"TestGamma_skips_at_its_start_from_execution,omitempty"`
+	Upd           string `json:"update_snaps"`
+	Sort          bool   `json:"sort"`
+}
+
+func genC08Later(t *rapid.T) c08LaterCase {
+	c := c08LaterCase{Count: rapid.IntRange(2, 3).Draw(t, "count"), NAlpha: rapid.IntRange(1, 3).Draw(t, "nalpha"), NBeta: rapid.IntRange(1, 3).Draw(t, "nbeta"),
+		BetaSub: rapid.Bool().Draw(t, "betasub"), Kind: rapid.SampledFrom([]string{"Skip", "Skipf", "SkipNow"}).Draw(t, "kind"),
+		AlwaysSkipper: rapid.Bool().Draw(t, "always"), Upd: rapid.SampledFrom([]string{"", "clean", "clean", "true"}).Draw(t, "upd"), Sort: rapid.Bool().Draw(t, "sort")}
+	c.SkipAt = rapid.IntRange(0, c.NBeta).Draw(t, "skipat")
+	c.FromExec = rapid.IntRange(2, c.Count).Draw(t, "fromexec")
+	if rapid.Bool().Draw(t, "gamma") {
+		c.GammaFrom = rapid.IntRange(2, c.Count).Draw(t, "gammafrom")
+	}
+	return c
+}
+
+func checkC08Later(c c08LaterCase) error {
+	cleanModule()
+	defer cleanModule()
+	shared := func(v string) Step { return Step{Op: "call", API: "snap", Cfg: c08Cfgs["shared"], Value: v, Tag: "shared"} }
+	build := func(withSkips bool) map[string]*Node {
+		tests := map[string]*Node{}
+		var alpha []Step
+		for i := 0; i < c.NAlpha; i++ {
+			alpha = append(alpha, shared(fmt.Sprintf("alpha %d", i)))
+		}
+		tests["TestAlpha"] = &Node{Steps: alpha}
+		var beta []Step
+		for i := 0; i < c.NBeta; i++ {
+			if withSkips && i == c.SkipAt {
+				beta = append(beta, Step{Op: "skip", Kind: c.Kind, FromExec: c.FromExec})
+			}
+			beta = append(beta, shared(fmt.Sprintf("beta %d", i)))
+		}
+		if withSkips && c.SkipAt >= c.NBeta {
+			beta = append(beta, Step{Op: "skip", Kind: c.Kind, FromExec: c.FromExec})
+		}
+		if c.BetaSub {
+			beta = append(beta, Step{Op: "sub", Name: "sub1", Steps: []Step{shared("beta sub")}})
+		}
+		tests["TestBeta"] = &Node{Steps: beta}
+		if c.AlwaysSkipper {
+			var al []Step
+			if withSkips {
+				al = append(al, Step{Op: "skip", Kind: "Skip"})
+			}
+			tests["TestAl"] = &Node{Steps: append(al, shared("al 0"), shared("al 1"))}
+		}
+		if c.GammaFrom > 0 {
+			var g []Step
+			if withSkips {
+				g = append(g, Step{Op: "skip", Kind: "SkipNow", FromExec: c.GammaFrom})
+			}
+			tests["TestGamma"] = &Node{Steps: append(g, shared("gamma 0"), Step{Op: "sub", Name: "deep", Steps: []Step{shared("gamma deep")}})}
+		}
+		return tests
+	}
+	if _, out, err := runProgram(RunOpts{Pkg: "."}, Scenario{Tests: build(false)}); err != nil {
+		return fmt.Errorf("recording run: %v (%s)", err, clip(out))
+	}
+	file := filepath.Join(scnRoot, "__snapshots__", "shared.snap")
+	b0, err := os.ReadFile(file)
+	if err != nil {
+		return fmt.Errorf("harness: %v", err)
+	}
+	pre, perr := refParse(string(b0))
+	if perr != nil {
+		return fmt.Errorf("harness: recorded file: %v", perr)
+	}
+	ageDir(scnRoot)
+	_, out, err := runProgram(RunOpts{Pkg: ".", Count: c.Count, Upd: c.Upd, UpdSet: c.Upd != ""}, Scenario{Tests: build(true), Clean: CleanSpec{Call: true, Sort: c.Sort}})
+	if err != nil {
+		return fmt.Errorf("run: %v (%s)", err, clip(out))
+	}
+	sum := parseSummaryLists(out)
+	if len(sum.Tests) > 0 || len(sum.Files) > 0 {
+		return fmt.Errorf("every test of the program ran or called snaps.Skip* in this process (-count=%d), but Clean lists obsolete items: tests %q files %q", c.Count, sum.Tests, sum.Files)
+	}
+	b1, err := os.ReadFile(file)
+	if err != nil {
+		return fmt.Errorf("the shared file was deleted: %v", err)
+	}
+	post, perr := refParse(string(b1))
+	if perr != nil {
+		return fmt.Errorf("shared file not well formed after the run: %v", perr)
+	}
+	for _, e := range pre {
+		j := findEntry(post, e.ID)
+		if j < 0 {
+			return fmt.Errorf("entry %q was recorded by a test that ran or was skipped through snaps.%s in a later execution (-count=%d, UPDATE_SNAPS=%q): Clean removed it", e.ID, c.Kind, c.Count, c.Upd)
+		}
+		if post[j].Body != e.Body {
+			return fmt.Errorf("entry %q changed: %q -> %q", e.ID, e.Body, post[j].Body)
+		}
+	}
+	if len(post) != len(pre) {
+		return fmt.Errorf("entries %v became %v", ids(pre), ids(post))
+	}
+	return nil
+}
+
+func classifyC08Later(c c08LaterCase) ([]string, bool) {
+	cls := []string{fmt.Sprintf("count_%d", c.Count), "skip_from_a_later_execution"}
+	if c.AlwaysSkipper {
+		cls = append(cls, "another_test_skips_every_time")
+	}
+	if c.GammaFrom > 0 {
+		cls = append(cls, "two_tests_skip_later")
+	}
+	if c.Upd == "clean" || c.Upd == "true" {
+		cls = append(cls, "deleting_mode")
+	}
+	return cls, true
+}
+
+func TestC08_SkipInLaterExecution(t *testing.T) {
+	prop[c08LaterCase]{property: "C08", gen: genC08Later, check: checkC08Later, classify: classifyC08Later, weight: 0.15}.run(t)
+}
